@@ -348,6 +348,8 @@ def _run_pipeline(proto, opts, feeds_list, expected, like_model, function_name, 
             # onnx.reference may dispute
             st1, r1 = runner.ref_run(ref_model, dict(zip([x[0] for x in i1], feeds)))
             st2, r2 = runner.ref_run(model2, dict(zip(names2, feeds)))
+            if _reference_unreliable(ref_model) or _reference_unreliable(model2):
+                st2 = "unreliable"      # onnx.reference cannot be a witness here (see _reference_unreliable)
             if st1 == "ok" and st2 == "ok" and compare.compare_outputs(r2, r1, check_dtype=True) is None:
                 res["disputed"] = True
                 continue
@@ -356,6 +358,25 @@ def _run_pipeline(proto, opts, feeds_list, expected, like_model, function_name, 
             return res
     res["ok"] = "fail" not in res or res["fail"] is None
     return res
+
+
+def _reference_unreliable(model):
+    """onnx.reference picks the LATEST default of an omitted attribute whatever opset the model imports (Softmax / LogSoftmax /
+    Hardmax without `axis` below opset 13 are evaluated along the last axis instead of axis 1 with flattening): on such a
+    model it may not dispute what ONNX Runtime computes."""
+    ver = {o.domain: o.version for o in model.opset_import}.get("", 99)
+
+    def walk(nodes):
+        for n in nodes:
+            if n.domain in ("", "ai.onnx") and n.op_type in ("Softmax", "LogSoftmax", "Hardmax") and ver < 13 and \
+                    not any(a.name == "axis" for a in n.attribute):
+                return True
+            for a in n.attribute:
+                if a.HasField("g") and walk(a.g.node):
+                    return True
+        return False
+
+    return walk(model.graph.node) or any(walk(f.node) for f in model.functions)
 
 
 def gen_inputs(model, seed_parts, n=3):
